@@ -4,6 +4,7 @@ import DracoProofs.EbEncPredict
 import DracoProofs.EbLayer
 import DracoProofs.EbIntSqrt
 import DracoProofs.EbCTIso
+import DracoProofs.EbHyps
 /-
   C01 (staging) — facts about the Edgebreaker mesh decoder model (DracoModel/Eb*.lean).
   The model is tied to the real decoder by the correspondence of C01 (tools/props/ebcases.py);
@@ -104,6 +105,10 @@ example : intSqrt 1000000 = 1000 ∧ intSqrt 999999 = 999 ∧ intSqrt (2 ^ 64 - 
       * `eb_prediction_layer_roundtrip`: the whole attribute value block (scheme bytes, symbol / raw coded
         corrections, crease / orientation / flip bit buffers, wrap / octahedron transform data) of every scheme
         is read back by `decodeIntegerValuesEb`, which consumes exactly the block;
+      * `eb_value_block_conditional`: encoder and decoder each on their OWN mesh data — IF the executable checker
+        `valueBlockHyps` (block invariance under the change of mesh data, the decoder's parent attribute, ranges,
+        counts) reports nothing THEN the block is read back; the op evaluates the checker on every block
+        (`hyp-ok`);
       * `eb_ctiso_sound`: the Boolean `ctIso` the op evaluates implies the Prop-level isomorphism `CTIso`.
       Missing for the full implication (evaluated per case — `rt-ok`, `iso-ok`, `hyp-ok` —, not proved):
       `seams_correspond` (the seam bits decoded along the decoder's face order mark the images of the encoder's
@@ -425,6 +430,55 @@ example : ∃ s', decodeIntegerValuesEb 1 3 2 2 exTriangle #[1, 2, 0] (some exPa
     (by decide) (by decide) rfl rfl (by decide) (by decide) (fun h => absurd h (by decide)) (by decide) (by decide)
     (fun h => by cases h)
     exTexBlock _ [9] rfl rfl
+
+open Draco.EbEnc in
+/-- (b) **conditional round trip of a value block, encoder and decoder each on their own mesh data**
+    (`eb_roundtrip_conditional` at the level of one attribute value block): the encoder ran on its corner table
+    (`b.md`, `b.pointIds`, `b.parent`: recorded in `Encoded.blocks`), the decoder works on the table it decoded
+    (`mdD`, `pointIdsD`, `parentD`).  IF the executable checker `valueBlockHyps` reports no failing hypothesis —
+    `blockInvariant` (the block the encoder writes does not change when the encoder's mesh data are replaced by
+    the decoder's: what `CTIso` + `seams_correspond` + `traversal_equivariant` + equivariance of the predictions
+    are to deliver), `decParent` (the decoder's position attribute shows, entry by entry, the positions the encoder
+    predicted from: `assign_points_correspond` for the parent), `schemeKind`, `sizes`, `int32`, `normals`,
+    `corners`, `creaseCount` — THEN the decoder reads the block back: portable values, exactly the block consumed.
+    The op `ebenc` evaluates `valueBlockHyps` (and this conclusion) on every block of every generated case
+    (`hyp-ok`), so no hypothesis is unchecked there. -/
+theorem eb_value_block_conditional (ch : EbChoices) (o : SeqEnc.EncOpts) (b : ValueBlock) (n attComponents : Nat)
+    (mdD : MeshData) (pointIdsD : Array Nat) (parentD : Option Parent)
+    (hy : valueBlockHyps ch o b n mdD pointIdsD parentD = [])
+    (henc : encodeIntegerValuesEb ch o b.attId b.kind b.nc b.numValues b.scheme b.md b.pointIds b.parent b.portable =
+      .ok (b.outScheme, b.bytes))
+    (s : DSt) (extra : Bytes) (hs : s.rest = b.bytes ++ extra) (hsv : s.version = 514) :
+    ∃ s', decodeIntegerValuesEb b.kind n b.nc attComponents mdD pointIdsD parentD s =
+      (some (b.portable, TransformData.none), s') ∧ s'.rest = extra :=
+  let ⟨s', h1, h2, _⟩ := (value_block_checked ch o b n attComponents mdD pointIdsD parentD hy henc).run s extra hs hsv
+  ⟨s', h1, h2⟩
+
+open Draco.EbEnc in
+/-- the value block of `exTexBlock` as the encoder records it -/
+def exBlock : ValueBlock :=
+  { ctrl := 0, attId := 0, kind := 1, nc := 2, numValues := 3, scheme := .texCoords, md := exTriangle,
+    pointIds := #[1, 2, 0], parent := some exParentE, portable := #[0, 0, 8, 0, 1, 7], outScheme := .texCoords,
+    bytes := [5, 1, 0, 1, 0, 0, 1, 0, 5, 6, 1, 0, 0, 0, 255, 1, 17, 0, 0, 0, 0, 8, 0, 0, 0] }
+
+open Draco.EbEnc in
+/-- the checker accepts it -/
+theorem exBlockHyps : valueBlockHyps exCh ({ builtin := false } : SeqEnc.EncOpts) exBlock 3 exTriangle #[1, 2, 0]
+    (some exParentD) = [] := by
+  have h1 : effectiveScheme .texCoords #[0, 0, 8, 0, 1, 7] = .texCoords := by rfl
+  have h2 : encParentSource .texCoords #[1, 2, 0] (some exParentE) = .ok exPositions := by rfl
+  have hself : ∀ a : Eb.R Bytes, resEq a a = true := fun a => by cases a <;> simp [resEq]
+  unfold valueBlockHyps
+  simp only [exBlock, h1, h2, hself]
+  rfl
+
+open Draco.EbEnc in
+/-- non-vacuity -/
+example : ∃ s', decodeIntegerValuesEb 1 3 2 2 exTriangle #[1, 2, 0] (some exParentD)
+      { rest := exBlock.bytes ++ [9], version := 514 } =
+      (some (#[0, 0, 8, 0, 1, 7], TransformData.none), s') ∧ s'.rest = [9] :=
+  eb_value_block_conditional exCh ({ builtin := false } : SeqEnc.EncOpts) exBlock 3 2 exTriangle #[1, 2, 0]
+    (some exParentD) exBlockHyps exTexBlock _ [9] rfl rfl
 
 open Draco.EbEnc in
 /-- (b) **CTIso as a proposition**: the Boolean checker the op evaluates on every case (`iso-ok`) implies the
